@@ -131,6 +131,86 @@ Definition exported_port (tg : mtarget) (p : option Z) : option (option Z) :=
   | _, _ => None
   end.
 
+(* ---- every exported name has a row: what the DSDL definition says about it (tools/checks/c05.py compares each row, read from
+   compiled code by tools/harness/c05_probe.py or the codec runners, with pydsdl) ---- *)
+Inductive mrow : Type :=
+| RHasFixedPortId | RFixedPortId | RFullName | RFullNameAndVersion | RExtentBytes | RBufferBytes | RConstant | RArrayCapacity
+| RArrayIsVariable | RUnionCount | RIsServiceType | RIsService | RIsRequest | RIsResponse
+| RInternalOverrideSwitch.    (* _DISABLE_SERIALIZATION_BUFFER_CHECK_: only with enable_override_variable_array_capacity, not metadata *)
+
+Definition c_rows : list (str * mrow) :=
+  [
+    ([95; 72; 65; 83; 95; 70; 73; 88; 69; 68; 95; 80; 79; 82; 84; 95; 73; 68; 95]%N, RHasFixedPortId);
+    ([95; 70; 73; 88; 69; 68; 95; 80; 79; 82; 84; 95; 73; 68; 95]%N, RFixedPortId);
+    ([95; 70; 85; 76; 76; 95; 78; 65; 77; 69; 95]%N, RFullName);
+    ([95; 70; 85; 76; 76; 95; 78; 65; 77; 69; 95; 65; 78; 68; 95; 86; 69; 82; 83; 73; 79; 78; 95]%N, RFullNameAndVersion);
+    ([95; 69; 88; 84; 69; 78; 84; 95; 66; 89; 84; 69; 83; 95]%N, RExtentBytes);
+    ([95; 83; 69; 82; 73; 65; 76; 73; 90; 65; 84; 73; 79; 78; 95; 66; 85; 70; 70; 69; 82; 95; 83; 73; 90; 69; 95; 66; 89; 84; 69; 83; 95]%N, RBufferBytes);
+    ([95; 60; 99; 111; 110; 115; 116; 62]%N, RConstant);
+    ([95; 60; 102; 105; 101; 108; 100; 62; 95; 65; 82; 82; 65; 89; 95; 67; 65; 80; 65; 67; 73; 84; 89; 95]%N, RArrayCapacity);
+    ([95; 68; 73; 83; 65; 66; 76; 69; 95; 83; 69; 82; 73; 65; 76; 73; 90; 65; 84; 73; 79; 78; 95; 66; 85; 70; 70; 69; 82; 95; 67; 72; 69; 67; 75; 95]%N, RInternalOverrideSwitch);
+    ([95; 60; 102; 105; 101; 108; 100; 62; 95; 65; 82; 82; 65; 89; 95; 73; 83; 95; 86; 65; 82; 73; 65; 66; 76; 69; 95; 76; 69; 78; 71; 84; 72; 95]%N, RArrayIsVariable);
+    ([95; 85; 78; 73; 79; 78; 95; 79; 80; 84; 73; 79; 78; 95; 67; 79; 85; 78; 84; 95]%N, RUnionCount)
+  ].
+Definition cpp_rows : list (str * mrow) :=
+  [
+    ([72; 97; 115; 70; 105; 120; 101; 100; 80; 111; 114; 116; 73; 68]%N, RHasFixedPortId);
+    ([70; 105; 120; 101; 100; 80; 111; 114; 116; 73; 100]%N, RFixedPortId);
+    ([73; 115; 83; 101; 114; 118; 105; 99; 101; 84; 121; 112; 101]%N, RIsServiceType);
+    ([73; 115; 83; 101; 114; 118; 105; 99; 101]%N, RIsService);
+    ([73; 115; 82; 101; 113; 117; 101; 115; 116]%N, RIsRequest);
+    ([73; 115; 82; 101; 115; 112; 111; 110; 115; 101]%N, RIsResponse);
+    ([69; 120; 116; 101; 110; 116; 66; 121; 116; 101; 115]%N, RExtentBytes);
+    ([83; 101; 114; 105; 97; 108; 105; 122; 97; 116; 105; 111; 110; 66; 117; 102; 102; 101; 114; 83; 105; 122; 101; 66; 121; 116; 101; 115]%N, RBufferBytes);
+    ([60; 99; 111; 110; 115; 116; 62]%N, RConstant);
+    ([77; 65; 88; 95; 73; 78; 68; 69; 88]%N, RUnionCount)
+  ].
+
+Fixpoint row_lookup (rows : list (str * mrow)) (nm : str) : option mrow :=
+  match rows with
+  | [] => None
+  | (k, r) :: rest => if lstr_eqb k nm then Some r else row_lookup rest nm
+  end.
+
+Definition name_row (tg : mtarget) (nm : str) : option mrow :=
+  match tg with TgtC => row_lookup c_rows nm | TgtCpp => row_lookup cpp_rows nm | TgtPy => None end.
+
+(* no exported name without a row *)
+Definition names_ok : bool :=
+  forallb (fun '(tg, nm) => match name_row tg nm with Some _ => true | None => false end) exported_names.
+
+(* ---- boolean flags rendered as literals under Jinja branches ---- *)
+Fixpoint cond_holds (c : mcond) (p : option Z) (svc : bool) : option bool :=
+  match c with
+  | CondHas SrcPortId | CondNotNone SrcPortId => Some (match p with Some _ => true | None => false end)
+  | CondTruthy SrcPortId => Some (match p with Some 0 | None => false | Some _ => true end)
+  | CondIsService => Some svc
+  | CondNotService => Some (negb svc)
+  | CondElse c' => match cond_holds c' p svc with Some b => Some (negb b) | None => None end
+  | _ => None
+  end.
+
+Fixpoint conds_hold (cs : list mcond) (p : option Z) (svc : bool) : option bool :=
+  match cs with
+  | [] => Some true
+  | c :: r => match cond_holds c p svc, conds_hold r p svc with Some a, Some b => Some (a && b) | _, _ => None end
+  end.
+
+(* the value of flag `nm` of target tg for a type with fixed port id p (None = none) that is / is not part of a service: the literal of
+   the UNIQUE rendering site whose branch is taken; None = no site, several sites, or a branch the scan does not understand *)
+Definition exported_flag (tg : mtarget) (nm : str) (p : option Z) (svc : bool) : option bool :=
+  let sites := filter (fun x => mtarget_eqb (fs_tgt x) tg && lstr_eqb (fs_name x) nm) flag_sites in
+  if forallb (fun x => match conds_hold (fs_conds x) p svc with Some _ => true | None => false end) sites then
+    match filter (fun x => match conds_hold (fs_conds x) p svc with Some true => true | _ => false end) sites with
+    | [x] => Some (fs_value x)
+    | _ => None
+    end
+  else None.
+
+Definition n_c_has_port : str := [95; 72; 65; 83; 95; 70; 73; 88; 69; 68; 95; 80; 79; 82; 84; 95; 73; 68; 95]%N.
+Definition n_cpp_has_port : str := [72; 97; 115; 70; 105; 120; 101; 100; 80; 111; 114; 116; 73; 68]%N.
+Definition n_cpp_is_service_type : str := [73; 115; 83; 101; 114; 118; 105; 99; 101; 84; 121; 112; 101]%N.
+
 (* ---- the up-front capacity check as rendered ---- *)
 Definition cmp_eval (op : mcmp) (a b : Z) : bool :=
   match op with CmpLt => a <? b | CmpLe => a <=? b | CmpGt => a >? b | CmpGe => a >=? b | CmpOther => false end.
